@@ -29,7 +29,8 @@ EXHAUSTIVE = True
 RULE = ('breadth-first over call sequences of the edit alphabet (refine x 4 bisect modes, split_column, '
         'decompose_columns, reduce, rename_column/-layer single+list, delete_column, add/delete node, column, '
         'connection, layer, well, refine_layers x factor 2|3, both snaps, fit_surface, translate, rotate, '
-        'copy_layers_from, write+read) with column/node/layer arguments as canonical indices and the subset rule '
+        'copy_layers_from x 3 layer sources (top at, above, below the old ground), a vertical translate of that '
+        'source geometry, write+read) with column/node/layer arguments as canonical indices and the subset rule '
         'given in bounds; a state is distinct by its name-assignment-free canonical form (node coordinates, column '
         'vertex sequences/surface/centre/layer count, unordered connection pairs, layers, wells, harness-given names, '
         'mesh-validity flag); every transition is validated against the reference invariant')
@@ -38,7 +39,13 @@ ASSUMPTIONS = [
     'col.area compared to the exact area at 1e-9 relative',
     'enabledness = documented contract: refine/split_column/decompose_columns/fit_surface only on a mesh that the '
     'reference finds valid (no missing/extra connection, no orphan node) and that was not touched by a primitive '
-    'since; refine only where the region and all its neighbours are 3- or 4-sided (documented requirement)',
+    'since; refine only on regions of 3- and 4-sided columns (documented requirement) - neighbours may have more '
+    'sides: refine() then either does not touch them or refuses, and a refusal must leave a valid mesh',
+    'the geometry that copy_layers_from took its layers from belongs to the state: after every later operation its '
+    'own invariant is evaluated and its canonical form must be what it was (an operation on one geometry must not '
+    'change another); translating that source must leave the copying geometry unchanged',
+    'after write+read the numbers of nodes, columns, connections, layers and wells must be those written (objects '
+    'whose names collide in the file are otherwise dropped silently), besides the invariant on the object read',
     'excluded (DESIGN 4.2): mesh-validity clauses after delete_column / delete_node / add_node / add_column / '
     'add_connection / delete_connection (primitives promise no valid mesh); they are checked again after reduce()',
     'excluded: delete_node of a node still used by a column; add_connection between columns that share no side; '
@@ -57,14 +64,15 @@ ASSUMPTIONS = [
 BOUNDS = {
     'quick': {'builders': 'rectangular nx,ny in 1..3 x convention 0..3 x atmosphere 0..2; from_gmsh x 2 files; from_amesh; '
                           'the 7 shipped geometry files (depth 0, invariant only)',
-              'seeds': ['rect2x2', 'rect3x2', 'mixed6', 'g7'],
-              'depth': {'rect2x2': 2, 'rect3x2': 2, 'mixed6': 2, 'g7': 1},
+              'seeds': ['rect2x2', 'rect3x2', 'mixed6', 'g7', 'rect2x2L (left-justified names)',
+                        'rect2x1n (atmosphere layer named like a subsurface layer, as g4.dat)'],
+              'depth': {'rect2x2': 2, 'rect3x2': 2, 'mixed6': 2, 'g7': 1, 'rect2x2L': 2, 'rect2x1n': 2},
               'subsets_depth0': 'every non-empty column subset (<= 6 columns)',
               'subsets_deeper': 'singles and the full set; single-object arguments (split_column quad, delete_column, '
                                 'rename, connection, layer): the first and the last canonical candidate'},
     'thorough': {'builders': 'as quick',
-                 'seeds': ['rect2x2', 'rect3x2', 'mixed6', 'g7'],
-                 'depth': {'rect2x2': 3, 'rect3x2': 2, 'mixed6': 3, 'g7': 1},
+                 'seeds': ['rect2x2', 'rect3x2', 'mixed6', 'g7', 'rect2x2L', 'rect2x1n'],
+                 'depth': {'rect2x2': 3, 'rect3x2': 2, 'mixed6': 3, 'g7': 1, 'rect2x2L': 2, 'rect2x1n': 3},
                  'subsets_depth0': 'every non-empty column subset (<= 6 columns); g7: singles on a stride, one pair, full set',
                  'subsets_depth1': 'all subsets while <= 6 columns, otherwise singles, pairs of neighbours and the full set',
                  'subsets_depth2': 'singles (first/last) and the full set, reduced alphabet'},
@@ -340,8 +348,7 @@ def reserved(name):
     return name if (len(name.strip()) == len(name) and name[:1] in 'zvx') else ''
 
 
-def canon(st):
-    geo = st['geo']
+def canon_geo(geo):
     cols = canon_cols(geo)
     cidx = dict((id(c), i) for i, c in enumerate(cols))
     ccan = []
@@ -355,7 +362,13 @@ def canon(st):
     return (tuple((npos(n), reserved(n.name)) for n in canon_nodes(geo)), tuple(ccan), tuple(cons),
             tuple((l.name, rc(l.bottom), rc(l.centre), rc(l.top)) for l in geo.layerlist),
             tuple((w.name, tuple(tuple(rc(x) for x in p) for p in w.pos)) for w in geo.welllist),
-            geo.convention, geo.atmosphere_type, st['valid'])
+            geo.convention, geo.atmosphere_type)
+
+
+def canon(st):
+    """The state = the geometry under edit, its mesh-validity flag, and the other geometry it took its layers
+    from (an operation on one geometry must not change another, so the source belongs to the state)."""
+    return (canon_geo(st['geo']), st['valid'], tuple(canon_geo(g) for g in st.get('src', ())))
 
 
 # ----------------------------------------------------------------------------------- seeds
@@ -367,10 +380,14 @@ def _finish(geo):
     return geo
 
 
-def seed_rect(nx, ny, atmos, lowered, well=False):
+def seed_rect(nx, ny, atmos, lowered, well=False, justify='r', atm_like_layer=False):
     import mulgrids
     with quiet():
-        geo = mulgrids.mulgrid().rectangular([10.] * nx, [10.] * ny, [10.] * 2, atmos_type=atmos)
+        geo = mulgrids.mulgrid().rectangular([10.] * nx, [10.] * ny, [10.] * 2, atmos_type=atmos, justify=justify)
+        if atm_like_layer:
+            # layer names as in the shipped g4.dat: the atmosphere layer carries a name (' 1') that the
+            # layer-name generator also hands out to subsurface layers
+            geo.rename_layer([' 2', ' 1', ' 0'], [' 3', ' 2', ' 1'])
         for idx, z in lowered:
             col = geo.columnlist[idx]
             col.surface = z
@@ -428,15 +445,25 @@ def make_seed(name):
         geo = seed_mixed()
     elif name == 'g7':
         geo = seed_g7()
+    elif name == 'rect2x2L':
+        geo = seed_rect(2, 2, 2, [(3, -7.)], justify='l')          # left-justified names
+    elif name == 'rect2x1n':
+        geo = seed_rect(2, 1, 0, [(1, -7.)], atm_like_layer=True)
     else:
         raise core.HarnessError('unknown seed %r' % name)
-    return {'geo': geo, 'hist': [], 'seed': name, 'valid': True}
+    return {'geo': geo, 'hist': [], 'seed': name, 'valid': True, 'src': [], 'src_canon': []}
 
 
-def layers_donor():
+DONORS = {'same': (0., [4., 8., 13.]),       # top at the seeds' ground level
+          'high': (12., [6., 6., 10., 12.]),  # top two layers above it
+          'low': (-4., [6., 10., 9.])}       # top below it
+
+
+def layers_donor(which='same'):
     import mulgrids
+    top, thick = DONORS[which]
     with quiet():
-        return mulgrids.mulgrid().rectangular([10.], [10.], [4., 8., 13.], atmos_type=2)
+        return mulgrids.mulgrid().rectangular([10.], [10.], thick, atmos_type=2, origin=[0., 0., top])
 
 
 # ----------------------------------------------------------------------------------- alphabet
@@ -531,12 +558,11 @@ def ops_of_factory(tier):
             nbr[b].add(a)
         small = dict((i, len(c.node) in (3, 4)) for i, c in enumerate(cols))
         if valid:
-            # refine: the region and its neighbours must be triangles/quadrilaterals (documented)
+            # refine: the region must be triangles/quadrilaterals.  Where a neighbour has more sides refine()
+            # either does not need it (bisection across other sides) or refuses ("not supported") - and a
+            # refusal must leave the geometry as it was
             for S in subs:
-                ring = set(S)
-                for i in S:
-                    ring |= nbr[i]
-                if all(small[i] for i in ring):
+                if all(small[i] for i in S):
                     for b in BISECT:
                         if reduced and b == 'y':
                             continue
@@ -613,7 +639,12 @@ def ops_of_factory(tier):
                     ops.append(['refine_layers', [i + 1 for i in L], f])
             if not reduced:
                 ops.append(['refine_layers', [], 2])
-            ops.append(['copy_layers_from'])
+            for which in ('same', 'high', 'low'):
+                if reduced and which != 'high':
+                    continue
+                ops.append(['copy_layers_from', which])
+        if st.get('src'):
+            ops.append(['translate_source'])
         # surfaces
         ssub = [[]] + ([[i] for i in pick(range(nc), cand)] if not reduced else [])
         for S in ssub:
@@ -774,7 +805,13 @@ def apply_op(st, op):
         geo.refine_layers([geo.layerlist[i].name for i in op[1]], factor=op[2])
         return False, 'factor=%d' % op[2]
     if kind == 'copy_layers_from':
-        geo.copy_layers_from(layers_donor())
+        donor = layers_donor(op[1] if len(op) > 1 else 'same')
+        st['src'] = [donor]
+        st['src_canon'] = [canon_geo(donor)]
+        geo.copy_layers_from(donor)
+        return False, op[1] if len(op) > 1 else 'same'
+    if kind == 'translate_source':
+        st['src'][0].translate([0., 0., 3.0])
         return False, ''
     if kind == 'snap_columns_to_layers':
         geo.snap_columns_to_layers(5.0, [cols[i].name for i in op[1]])
@@ -793,6 +830,12 @@ def apply_op(st, op):
         geo.write(path)
         st['geo'] = mulgrids.mulgrid(path)
         os.remove(path)
+        g2 = st['geo']
+        st['_roundtrip'] = [(k, a, b) for k, a, b in (('nodes', len(geo.nodelist), len(g2.nodelist)),
+                                                      ('columns', len(geo.columnlist), len(g2.columnlist)),
+                                                      ('connections', len(geo.connectionlist), len(g2.connectionlist)),
+                                                      ('layers', len(geo.layerlist), len(g2.layerlist)),
+                                                      ('wells', len(geo.welllist), len(g2.welllist))) if a != b]
         return False, ''
     raise core.HarnessError('unknown operation %r' % (op,))
 
@@ -840,6 +883,8 @@ def step_impl(st, op, sink):
     kind = op[0]
     st['hist'] = st['hist'] + [op]
     was_valid = st['valid']
+    st.pop('_roundtrip', None)
+    main_before = canon_geo(st['geo']) if kind == 'translate_source' else None
     try:
         with quiet():
             promise, klass = apply_op(st, op)
@@ -854,6 +899,27 @@ def step_impl(st, op, sink):
     with quiet():
         found = invariant(geo, promise_mesh=promise, coords_too=promise and was_valid)
     out = []
+    # an operation on one geometry must not change another: the layer source of copy_layers_from
+    hard = []
+    for i, src in enumerate(st.get('src', [])):
+        if kind == 'translate_source':
+            if canon_geo(geo) != main_before:
+                hard.append(('other-geometry-changed', 'translating the geometry the layers were copied from '
+                             'changed the geometry that copied them'))
+            st['src_canon'][i] = canon_geo(src)
+        elif canon_geo(src) != st['src_canon'][i]:
+            hard.append(('other-geometry-changed', 'the geometry the layers were copied from is no longer what '
+                         'it was before the operation (layers %r)' % ([(l.name, l.bottom) for l in src.layerlist],)))
+        with quiet():
+            for clause, text in invariant(src, promise_mesh=False):
+                hard.append(('source:' + clause, 'in the geometry the layers were copied from: ' + text))
+    for k, a, b in st.pop('_roundtrip', None) or ():
+        hard.append(('objects-lost', '%d %s written, %d read back' % (a, k, b)))
+    for clause, text in hard:
+        out.append(('%s|%s|%s|%s' % (ID, kind, clause, klass), 'after %s: %s' % (kind, text)))
+    if hard:
+        return out + [('%s|%s|%s|%s' % (ID, kind, clause, klass), 'after %s: %s' % (kind, text))
+                      for clause, text in found]
     names_done = False
     for clause, text in found:
         if kind in PRIMITIVES and clause in ('block_name_list', 'block_connection_name_list'):
@@ -889,13 +955,15 @@ def op_class(op):
         return 'primitive'
     if kind == 'refine_layers':
         return 'factor=%d' % op[2]
+    if kind == 'copy_layers_from':
+        return op[1] if len(op) > 1 else 'same'
     return ''
 
 
 # ----------------------------------------------------------------------------------- units
 
-NCHUNK = {'quick': {'rect2x2': 12, 'rect3x2': 40, 'mixed6': 8, 'g7': 8},
-          'thorough': {'rect2x2': 68, 'rect3x2': 48, 'mixed6': 40, 'g7': 8}}
+NCHUNK = {'quick': {'rect2x2': 12, 'rect3x2': 40, 'mixed6': 8, 'g7': 8, 'rect2x2L': 12, 'rect2x1n': 4},
+          'thorough': {'rect2x2': 68, 'rect3x2': 48, 'mixed6': 40, 'g7': 8, 'rect2x2L': 16, 'rect2x1n': 16}}
 
 
 def builder_specs():
@@ -999,6 +1067,7 @@ def run_unit(unit, tier, rec):
             # keep the canonical form only
             st['_canon'] = canon(st)
             st['geo'] = None
+            st['src'] = []
         return v
 
     def canon_of(st):
